@@ -296,7 +296,7 @@ func RunLayouts(tier, rule string) int {
 		go func(i int, c cfgKey) {
 			defer wg.Done()
 			defer func() { <-sem }()
-			r := &mcres{design: map[string]json.RawMessage{}, asis: map[string]json.RawMessage{}, res: &tlc.Result{}}
+			r := &mcres{design: map[string]json.RawMessage{}, asis: map[string]json.RawMessage{}, res: &tlc.Result{Actions: map[string][2]int64{}}}
 			results[i] = r
 			for _, tag := range []string{"design", "asis"} {
 				d := "{}"
@@ -307,7 +307,7 @@ func RunLayouts(tier, rule string) int {
 				}
 				cfg := "SPECIFICATION Spec\nCONSTANTS\n  Files <- FilesDef\n  RefsOf <- RefsDef\n  TypesOf <- TypesDef\n  OutOf <- OutDef\n  PkgOf <- PkgDef\n  Orders <- OrdersDef\n  Common <- CommonDef\n  D = {}\n" +
 					"  Devs = " + d + "\n  Tier = \"" + tier + "\"\n  Graph = \"" + c.graph + "\"\n  Mapping = \"" + c.mapping + "\"\n  Dirs = \"" + c.dirs + "\"\n  Tag = \"" + tag + "\"\n" + inv + "CHECK_DEADLOCK FALSE\n"
-				tr, err := tlc.Run(tlc.Opts{Module: "MC_C20", Cfg: cfg, Dir: filepath.Join(sc.Dir, fmt.Sprintf("tlc-l-%d-%s", i, tag)), Workers: 2, Timeout: 10 * time.Minute, HeapGB: 2})
+				tr, err := tlc.Run(tlc.Opts{Module: "MC_C20", Cfg: cfg, Dir: filepath.Join(sc.Dir, fmt.Sprintf("tlc-l-%d-%s", i, tag)), Workers: 2, Timeout: 10 * time.Minute, HeapGB: 2, Coverage: tag == "design"})
 				if err != nil {
 					r.err = err
 					return
@@ -319,6 +319,7 @@ func RunLayouts(tier, rule string) int {
 				r.res.Distinct += tr.Distinct
 				r.res.Generated += tr.Generated
 				r.res.Cmd = tr.Cmd
+				tlc.MergeActions(r.res.Actions, tr)
 				for _, p := range tr.Prints {
 					if !strings.HasPrefix(p, "RUN ") {
 						continue
@@ -339,7 +340,7 @@ func RunLayouts(tier, rule string) int {
 		}(i, c)
 	}
 	wg.Wait()
-	mc := &tlc.Result{}
+	mc := &tlc.Result{Actions: map[string][2]int64{}}
 	var evs []*layoutEvent
 	var jobs, cliJobs []work.GenJob
 	cliFlags := map[string][]string{}
@@ -352,6 +353,7 @@ func RunLayouts(tier, rule string) int {
 		mc.Distinct += r.res.Distinct
 		mc.Generated += r.res.Generated
 		mc.Cmd = r.res.Cmd
+		tlc.MergeActions(mc.Actions, r.res)
 		keys := make([]string, 0, len(r.design))
 		for k := range r.design {
 			keys = append(keys, k)
@@ -541,13 +543,17 @@ func RunLayouts(tier, rule string) int {
 		e := evs[k]
 		samples = append(samples, map[string]any{"graph": e.run.Graph, "mapping": e.run.Mapping, "dirs": e.run.Dirs, "arguments": e.run.Args, "expected_by_model": e.Design, "observed": e.Obs})
 	}
+	specActions, err := vacuity(prop, mc.Actions)
+	if err != nil {
+		return infra(prop, err)
+	}
 	ev := &Evidence{PropertyID: prop, Tier: tier, Seed: seed, Level: "model_checking",
 		Coverage: map[string]any{
 			"states": mc.Distinct + tr.Distinct + tr2.Distinct, "transitions": mc.Generated + tr.Generated + tr2.Generated,
 			"traces_validated_against_impl": len(events), "evaluations": len(events), "distinct_nontrivial": tally.Rej,
 			"rule": rule, "samples": samples, "layouts": len(cfgs), "runs": len(events), "history_classes": len(eqs),
 			"history_variants_compared": tally2.Ok + tally2.Viol + tally2.Known, "known_finding_events": tally.Known,
-			"exhaustive": true, "checker_cmd": mc.Cmd, "open_deviations": devs,
+			"exhaustive": true, "checker_cmd": mc.Cmd, "open_deviations": devs, "spec_actions": specActions,
 		},
 		Assumptions: []string{"package clause and declared type names are read from the emitted files with go/parser"},
 		WallS:       time.Since(t0).Seconds(), Violations: confirmed}
